@@ -825,6 +825,11 @@ class Extractor:
                     st.chain = base_chain
                     body = b if bt else b + rest
                     orelse = e if et else e + rest
+                    if self.mark_tags and v == st.cur and not getattr(st, "marked", False) and st.cur in st.loopspec and pr.kind == "not" and pr.sub[0].kind == "in" \
+                            and any(t in self.mark_tags for t in pr.sub[0].arg) and bt and not fi.is_generator() and not self.returns_nodes(fi) \
+                            and not any(isinstance(a, Guard) and a.body and isinstance(a.body[0], Mark) for a in orelse):
+                        # `if child.tag != CELL: continue` (or `not in (TD, TH)`): what follows is the selected branch
+                        orelse = [Guard(v, Pred("in", frozenset([t])), [Mark(v, mn)], []) for t, mn in self.mark_tags.items() if t in pr.sub[0].arg] + orelse
                     acts += self.wrap(fi, st, v, [Guard(v, pr, body, orelse)])
                     return acts, (bt or rt) and (et or rt)
                 tv = self.truth(fi, s.test, st)
